@@ -432,7 +432,7 @@ def corpus_request(bdir, wd, name, asm, flags):
 
 def run(args):
     res = common.Result("C19", args.tier, args.seed, "proof")
-    bdir, audit, proof_problems = common.standard_setup(res, "C19", [])
+    bdir, audit, proof_problems = common.standard_setup(res, "C19", ["ListParams"])
     if bdir is None:
         return res.finish()
     ok = not any(p.startswith("driver does not build") for p in proof_problems)
@@ -497,12 +497,22 @@ def run(args):
             if kv["sym_map_nothing"] != "ok":
                 spec_fail.append(dict(sig="map-symbols-without-segment-omitted", why="MAP file has no 'Symbols in Segment NOTHING' section: " + kv["sym_map_nothing"], **common_f))
 
+        # ---- word-listed / word-addressed targets (vlib/props/c19_wide.py, driver mode c19w)
+        from . import c19_wide
+        wres = c19_wide.run_wide(bdir, wd, common.rng_for(args.seed, "C19-wide"), {"quick": 48, "thorough": 640}[args.tier], mode, ok)
+        spec_fail += wres["spec_fail"]
+        corr_fail += wres["corr_fail"]
+        dist["wide"] = dict(generated=wres["agg"], **wres["dist"])
+        dist["wide"]["table_combinations_cpu_segments"] = c19_wide.table_combos()
+        samples += wres["samples"][:2]
+        distinct |= wres["distinct"]
+
         # ---- golden corpus
         tests = common.corpus_tests()
         order = list(range(len(tests)))
         common.rng_for(args.seed, "C19-corpus").shuffle(order)
         pick = order[:40] if args.tier == "quick" else order
-        cagg = dict(tests=0, skipped=0, addr_differs_from_load_under_phase=0, retracted_predecessor_skipped=0, groups=0, nocode=0, wide_skipped=0, via_map=0, direct=0, bytes=0, multi_line=0, sym_compared=0, map_entries=0, other_lines=0)
+        cagg = dict(tests=0, skipped=0, addr_differs_from_load_under_phase=0, retracted_predecessor_skipped=0, groups=0, nocode=0, wide_joined=0, wide_bytes=0, via_map=0, direct=0, bytes=0, multi_line=0, sym_compared=0, map_entries=0, other_lines=0)
         creqs = []
         cmeta = []
         for ti in sorted(pick):
@@ -520,9 +530,14 @@ def run(args):
                 spec_fail.append(dict(tag="corpus:" + name, why="driver: " + ans[:200]))
                 continue
             cagg["tests"] += 1
-            for k, kk in (("groups", "groups"), ("nocode", "nocode"), ("wide", "wide_skipped"), ("via_map", "via_map"), ("direct", "direct"),
+            for k, kk in (("groups", "groups"), ("nocode", "nocode"), ("wide", "wide_joined"), ("wide_bytes", "wide_bytes"), ("via_map", "via_map"), ("direct", "direct"),
                           ("bytes", "bytes"), ("multi", "multi_line"), ("retracted", "retracted_predecessor_skipped"), ("sym_compared", "sym_compared"), ("map_entries", "map_entries"), ("other", "other_lines")):
                 cagg[kk] += int(kv[k])
+            if kv.get("wdist", "-") != "-":
+                wd_ = cagg.setdefault("wide_g:lg:byteorder", {})
+                for it in kv["wdist"].split(","):
+                    k_, v_ = it.rsplit("=", 1)
+                    wd_[k_] = wd_.get(k_, 0) + int(v_)
             if kv["list_bad"] != "ok":
                 idxs = [int(x) for x in kv["list_bad"].split(":", 1)[1].split(",")]
                 spec_fail.append(dict(tag="corpus:" + name, why="golden test: listing line's address/bytes not found in the code file", lines=[info["src"][i] for i in idxs if i < len(info["src"])], verdict=kv))
@@ -536,18 +551,21 @@ def run(args):
 
     res.coverage = common.proof_coverage(audit, "C19", [
         "harness: page-header stripping of the listing, file plumbing (python)",
-        "correspondence: real asl listing text vs Model.Listing.makeList; MAP order vs addLineInfo (differential test)",
+        "correspondence: real asl listing text vs Model.Listing.makeList / makeListW (Gran, ListGran, TurnWords from Generated/ListParams.lean); MAP order vs addLineInfo (differential test)",
+        "translator: Generated/ListParams.lean = globals after every CPU switch, printed by a dumper linked against the current build (ld --wrap of MakeList/asmlist_init)",
         "self-calibrating probe: radix of the listing's %x numerals (affects the MODEL side only)"])
     res.coverage.update(
-        evaluations=agg["code_groups"] + agg["map_entries"] + agg["sym_list"] + agg["sym_map"] + agg["sym_share"] + dist["corpus"]["via_map"] + dist["corpus"]["direct"],
+        evaluations=agg["code_groups"] + agg["map_entries"] + agg["sym_list"] + agg["sym_map"] + agg["sym_share"] + dist["corpus"]["via_map"] + dist["corpus"]["direct"]
+        + sum(dist["wide"]["generated"][k] for k in ("code_groups", "map_entries", "sym_list", "sym_map", "sym_share")),
         distinct_nontrivial=len(distinct),
-        rule="generated programs on z80/6502/8051/8086 (data lines 1..40 bytes with continuation lines, reservations, ORG, SEGMENT, PHASE, macros, REPT, nested INCLUDE, IF, LISTING OFF, EQU, SHARED incl. forward reference) x list radix x share format; evaluation = one listed line group / MAP entry / symbol value joined with the code file; distinct by (cpu, radix, share format, #groups, #bytes, #map entries)",
+        rule="generated programs on z80/6502/8051/8086 (data lines 1..40 bytes with continuation lines, reservations, ORG, SEGMENT, PHASE, macros, REPT, nested INCLUDE, IF, LISTING OFF, EQU, SHARED incl. forward reference) x list radix x share format; evaluation = one listed line group / MAP entry / symbol value joined with the code file; distinct by (cpu, radix, share format, #groups, #bytes, #map entries); the same on word-listed / word-addressed targets (68000 dc.b/dc.w/dc.l with PADDING, TMS320C25, TMS320C30, PIC 16C84, ATmega8, MSP430, CP-1600, 80960: data lines of 1..13 units = up to 5 listing lines, byte-dumped remainders, reservations, ORG, SEGMENT, PHASE, macros, REPT, INCLUDE, LISTING OFF)",
         samples=samples, distribution=dict(generated=agg, **dist))
-    res.assumptions = ["byte-listed targets only (Granularity = ListGran = 1); word-listed lines of the golden corpus are counted as wide_skipped",
+    res.assumptions = ["word-listed lines of the golden corpus are joined by the general documented reading with every address-unit size and byte order for which the code file has records (no per-target knowledge)",
+                       "generated word-listed programs: address-unit size, byte order, data directives and the even-address padding rule per target are generator knowledge (manufacturer documentation / doc/pseudo-instructions.md)",
                        "negative symbol values are compared modulo 2^64 (the files print the 64-bit two's complement)",
                        "NoICE and Atmel debug formats are not read",
                        "hook H2 (emission trace) is not present; the generator's own bookkeeping supplies segment/phase per listed line"]
-    return common.conclude(res, proof_problems, spec_fail, corr_fail, agg["programs"] + dist["corpus"]["tests"])
+    return common.conclude(res, proof_problems, spec_fail, corr_fail, agg["programs"] + dist["wide"]["generated"]["programs"] + dist["corpus"]["tests"])
 
 
 def replay(args):
